@@ -1,5 +1,5 @@
 (* Proofs about Model/RankSelect.v (C08, C09) *)
-From Coq Require Import List Arith Lia Bool QArith Qabs.
+From Coq Require Import List Arith Lia Bool QArith Qabs Permutation.
 Import ListNotations.
 From Yaqs Require Import Base.Num Model.RankSelect.
 Local Open Scope nat_scope.
@@ -220,3 +220,18 @@ Proof. intro Ht. rewrite tail_weight_Q. unfold keep_tss. rewrite tss_loop_consum
   set (c := consumed_ge (rev s) 0 thr). destruct (Nat.ltb_spec c (length s)) as [L|L].
   - rewrite rev_skipn. apply consumed_ge_prefix; [exact Ht|]. fold c. lia.
   - rewrite skipn_all. simpl. exact Ht. Qed.
+
+(* ---------- MPS.truncate visits every bond exactly once ---------- *)
+Local Open Scope nat_scope.
+Lemma map_seq_rev_perm n c : c <= n -> Permutation (map (fun i => n - 1 - i) (seq 0 (n - c))) (seq c (n - c)).
+Proof. intro H. remember (n - c) as m eqn:Em. revert c H Em. induction m as [|m IH]; intros c H Em; [reflexivity|].
+  rewrite seq_S, map_app. cbn [map Nat.add]. replace (n - 1 - m) with c by lia.
+  cbn [seq]. symmetry. transitivity (c :: map (fun i => n - 1 - i) (seq 0 m)).
+  - constructor. symmetry. apply IH; lia.
+  - apply Permutation_cons_append. Qed.
+Theorem truncate_covers_all_bonds L c : c < L -> Permutation (map (bond_of L) (truncate_calls L c)) (seq 0 (L - 1)).
+Proof. intro H. unfold truncate_calls. destruct (Nat.eqb_spec L 1) as [->|N]; [reflexivity|].
+  rewrite map_app, !map_map. unfold bond_of; simpl fst; simpl snd. rewrite map_id.
+  replace (seq 0 (L - 1)) with (seq 0 c ++ seq c (L - 1 - c)) by (rewrite <- seq_app; f_equal; lia).
+  apply Permutation_app; [reflexivity|].
+  rewrite (map_ext _ (fun i => (L - 1) - 1 - i)) by (intros; lia). apply map_seq_rev_perm. lia. Qed.
